@@ -1,4 +1,5 @@
 import Proofs.Check
+import Gen.CheckCond
 
 /-!
   C11 — The consistency check reports exactly the violations present.
@@ -108,6 +109,30 @@ theorem no_false_positive_uniq (w : World) (k : Kind) (ci : ClassInfo) (hk : w.c
     intro idn hidn
     exact repeatsSpec_zero _ _ [] (hdist idn hidn) (fun _ _ => by simp)
   omega
+
+/-- tie to the source: the three decisions as TRANSLATED from xtuml/consistency_check.py on this run
+    (lean/Gen/CheckCond.lean: the counting condition of check_link_integrity, the null test of
+    check_uniqueness_constraint, the exit status expression) are the ones the model uses — for all
+    arguments.  A change of any of these expressions in the code changes the generated file and this
+    theorem is re-checked against it. -/
+theorem decisions_as_in_source :
+    (∀ cond many n, Pyx.Gen.CheckCond.violates cond many n = violates cond many n) ∧
+    (∀ v isUid, Pyx.Gen.CheckCond.isNull v isUid = isNull v isUid) ∧
+    (∀ (w : World) rels kinds, Pyx.Gen.CheckCond.exitNonZero (mainErrors w rels kinds) = decide (exitStatus w rels kinds ≠ 0)) := by
+  refine ⟨?_, ?_, ?_⟩
+  · intro cond many n
+    unfold Pyx.Gen.CheckCond.violates violates
+    cases cond <;> cases many <;> simp
+  · intro v isUid
+    unfold Pyx.Gen.CheckCond.isNull isNull
+    cases v with
+    | none => simp
+    | some x =>
+      cases isUid <;> simp
+      by_cases hx : x = 0 <;> simp [hx]
+  · intro w rels kinds
+    unfold Pyx.Gen.CheckCond.exitNonZero exitStatus
+    by_cases h : mainErrors w rels kinds > 0 <;> simp [h]
 
 /-! non-vacuity: a 1:1 unconditional association with one unlinked target instance, one class with a
     duplicated identifier and a null id -/
